@@ -684,8 +684,17 @@ def concretize(x):
   v = s.model().eval(x.z, model_completion=True)
   if not z3.is_int_value(v):
     return None
-  if s.check(x.z != v) == z3.unsat:
+  r = s.check(x.z != v)
+  if r == z3.unsat:
     return v.as_long()
+  if r == z3.unknown:
+    # non-linear path conditions (floor divisions by a symbolic block size ...): the stronger prover (mixed-radix rewriting,
+    # case analysis) may still establish that the model value is the only one
+    try:
+      if prove(x == v.as_long()):
+        return v.as_long()
+    except Exception:  # pylint: disable=broad-except
+      pass
   return None
 
 
